@@ -2,7 +2,8 @@
 // A case builds Messages in 8 registers and a stack of filters (constructors + setters, the archive factory, or
 // CreateQueryFilterFromExpression); for the filter on top of the stack it prints, in the same canonical text as
 // the extracted Coq model (ocaml/flt_driver.ml):
-//    k B <status of every op>      k F <filter tree read from the objects' members>    k D <Matches() on registers 0..7>
+//    k B <status of every op>      k V <Matches() on registers 0..7 at every `ev` op>
+//    k F <filter tree read from the objects' members>    k D <Matches() on registers 0..7>
 //    k A <archive Message>         k R ok <restored filter> <its decisions> | k R err
 // Independently of the model it evaluates the property's own statement on the implementation (ORACLE FAIL lines):
 //   * Matches() == the documented semantics, evaluated by spec_eval() below on the harness's OWN copy of the filter
@@ -626,7 +627,7 @@ static std::string bits(const QueryFilter * f, Message * regs, const DataNode * 
 
 static void run_case(int k, const std::string & head, const std::string & body)
 {
-   std::ostringstream out, orc;
+   std::ostringstream out, orc, vout;
    {
       Message regs[8];
       OMsg oregs[8];
@@ -797,6 +798,56 @@ static void run_case(int k, const std::string & head, const std::string & body)
             stack.resize(stack.size()-cnt);
             Entry e; e.f = QueryFilterRef(f); if (oracleKnown) e.o = o; stack.push_back(e); ok = true;
          }
+         else if ((c == "ev")&&(a.size() == 1))
+         {
+            // evaluate the object on top of the stack now (this is what makes it a USED object: a StringQueryFilter compiles and caches its matcher)
+            if (!stack.empty())
+            {
+               const std::string d = bits(stack.back().f(), regs, nodeRef(), orc, k);
+               vout << k << " V " << d << "\n";
+               if (stack.back().o)
+               {
+                  std::string sp;
+                  for (int i=0; i<8; i++) sp += spec_eval(*stack.back().o, oregs[i], onode) ? '1' : '0';
+                  if (sp != d) orc << k << " ORACLE FAIL Matches() differs from the documented semantics: got " << d << " expected " << sp << " for " << desc_filter(stack.back().f()) << " (intermediate evaluation)\n";
+               }
+               ok = true;
+            }
+         }
+         else if ((c == "sfa")&&(a.size() == 1))
+         {
+            // stack: .. T G  ->  T->SetFromArchive(archive of G) on the SAME object T; G is dropped.  A failed call drops T as well.
+            if (stack.size() >= 2)
+            {
+               Entry g = stack.back(); stack.pop_back();
+               Entry t = stack.back(); stack.pop_back();
+               Message arch;
+               if (g.f()->SaveToArchive(arch).IsOK())
+               {
+                  QueryFilter * obj = const_cast<QueryFilter *>(t.f());
+                  if (obj->SetFromArchive(arch).IsOK())
+                  {
+                     t.o = g.o;      // from now on the object must decide like G
+                     stack.push_back(t);
+                     ok = true;
+                  }
+               }
+            }
+         }
+         else if (((c == "so")||(c == "sv"))&&(a.size() == 2))
+         {
+            // StringQueryFilter::SetOperator / SetValue on the object on top of the stack
+            StringQueryFilter * sq = stack.empty() ? NULL : dynamic_cast<StringQueryFilter *>(const_cast<QueryFilter *>(stack.back().f()));
+            if (sq)
+            {
+               std::shared_ptr<OF> no;
+               if (stack.back().o) no.reset(new OF(*stack.back().o));
+               if (c == "so") {const uint8 op = (uint8)(u32(a[1]) & 255); sq->SetOperator(op); if (no) no->op = op;}
+                         else {const Bytes v = unhex(a[1]); sq->SetValue(mkstr(v)); if (no) no->val = v;}
+               stack.back().o = no;
+               ok = true;
+            }
+         }
          else if ((c == "h")&&(a.size() == 2))
          {
             // the archive arrives as bytes: Flatten / Unflatten first, as it would over a connection
@@ -828,6 +879,7 @@ static void run_case(int k, const std::string & head, const std::string & body)
       }
 
       out << k << " B " << st << "\n";
+      out << vout.str();
       if (stack.empty()) out << k << " F none\n";
       else
       {
